@@ -79,7 +79,7 @@ func cmdSelftest(args []string) int {
 				defer wg.Done()
 				sem <- struct{}{}
 				defer func() { <-sem }()
-				cmd := exec.Command(binPath(p.Race), "digest", "-prop", p.Prop, "-profile", p.Name, "-from", "0", "-to", fmt.Sprint(runs))
+				cmd := exec.Command(binPath(p.Race, p.Pre), "digest", "-prop", p.Prop, "-profile", p.Name, "-from", "0", "-to", fmt.Sprint(runs))
 				env := childEnv(p.Race)
 				env = append(env, "RUXSIM_KEEP_GOMAXPROCS=1", "GOMAXPROCS="+gmp[k%3])
 				cmd.Env = env
